@@ -135,6 +135,8 @@ def run_tlc(module, cfg=None, workers=8, env=None, simulate=None, depth=None, se
                 raise ToolError("bad emitted line: %r (%s)" % (ln[:200], ex))
             continue
         other.append(ln)
+        if ln.startswith('<<"BAD_') or ln.startswith('<<"REJECTED_AT"') or ln.startswith('<<"INSANE"'):
+            res.setdefault("notes", []).append(ln)
         m = re.match(r"^(\d+) states generated, (\d+) distinct states found", ln)
         if m:
             res["states"], res["distinct"] = int(m.group(1)), int(m.group(2))
